@@ -319,6 +319,7 @@ func runC19(c *Ctx) {
 		c19Infer(c, c19WellFormed(r, leaves), true)
 		c19Infer(c, c19Malformed(r, leaves), false)
 	}
+	c19EnumDecode(c, r.Fork())
 	seqN := 300
 	if c.Thorough {
 		seqN = 10000
@@ -529,6 +530,78 @@ func c19Sequences(c *Ctx, r *Rng, leaves []string, n int) {
 			}
 			if a.Type() != proto.ColumnType(t) {
 				R.Violate(Violation{Kind: "oracle", Key: "infer-reused-wrong-column", What: fmt.Sprintf("request %d (%q) succeeded but the ColAuto reports %q", j, t, a.Type()), Case: cs})
+				break
+			}
+		}
+	}
+}
+
+// "decodes data of that type correctly" for inferred enums: the names are what stands between the quotes, character for
+// character (inner spaces, a name that differs from another only by a space, empty name), and every defined value decodes to
+// its own name
+func c19EnumDecode(c *Ctx, r *Rng) {
+	R := c.R
+	pool := []string{"a", " a", "a ", " a ", "b", "b  ", "", " ", "x y", "Ünï", "(", ")", "k"}
+	n := 40
+	if c.Thorough {
+		n = 2000
+	}
+	for i := 0; i < n; i++ {
+		w := 8 + 8*r.Intn(2)
+		k := 1 + r.Intn(4)
+		perm := r.Intn(len(pool))
+		var names []string
+		var vals []int
+		var parts []string
+		for j := 0; j < k; j++ {
+			names = append(names, pool[(perm+j*5)%len(pool)])
+			vals = append(vals, j*3-2)
+			parts = append(parts, fmt.Sprintf("'%s'%s%d", names[j], []string{" = ", "=", "  =  "}[r.Intn(3)], vals[j]))
+		}
+		dup := false
+		for a := range names {
+			for b := range names {
+				if a != b && names[a] == names[b] {
+					dup = true
+				}
+			}
+		}
+		if dup {
+			continue
+		}
+		t := fmt.Sprintf("Enum%d(%s)", w, strings.Join(parts, []string{", ", ",", " , "}[r.Intn(3)]))
+		cs := map[string]any{"type": t, "names": names, "values": vals}
+		R.Case("enum-decode|"+t, true)
+		R.Count("shape:enum-decode")
+		col, err, pmsg := inferSafely(t)
+		if pmsg != "" {
+			R.Violate(Violation{Kind: "oracle", Key: "infer-panic", What: "ColAuto.Infer panicked: " + pmsg, Case: cs})
+			continue
+		}
+		if err != nil || col.Data == nil {
+			continue // refusing is allowed
+		}
+		var wire []byte
+		for _, v := range vals {
+			if w == 8 {
+				wire = append(wire, byte(int8(v)))
+			} else {
+				wire = append(wire, byte(uint16(int16(v))), byte(uint16(int16(v))>>8))
+			}
+		}
+		var derr error
+		if p, msg := safely(func() { derr = col.Data.DecodeColumn(proto.NewReader(bytes.NewReader(wire)), len(vals)) }); p {
+			R.Violate(Violation{Kind: "oracle", Key: "infer-decode-panic", What: "inferred enum column panicked on decode: " + msg, Case: cs})
+			continue
+		}
+		e, ok := col.Data.(*proto.ColEnum)
+		if derr != nil || !ok || e.Rows() != len(vals) {
+			R.Violate(Violation{Kind: "oracle", Key: "infer-enum-decodes-wrong", What: fmt.Sprintf("the column inferred for %q does not decode its own defined values (err=%v)", t, derr), Case: cs})
+			continue
+		}
+		for j := range vals {
+			if got := e.Row(j); got != names[j] {
+				R.Violate(Violation{Kind: "oracle", Key: "infer-enum-decodes-wrong", What: fmt.Sprintf("the column inferred for %q decodes the value %d as %q, its name is %q", t, vals[j], got, names[j]), Case: cs})
 				break
 			}
 		}
